@@ -3,6 +3,7 @@ import ElaVerif.Lemmas.Node
 import ElaVerif.Props.C13
 import ElaVerif.Props.C06
 import ElaVerif.Lemmas.IndexCongr
+import ElaVerif.Lemmas.IndexLedger
 /-!
   C14 — the queryable UTXO views agree with the ledger obtained by replaying the active chain.
 
@@ -80,6 +81,26 @@ theorem C14_history_is_direct_build {s0 s : State} {st : List Block} (h : Reach 
 theorem C14_disconnect_never_fails {s0 s : State} {st : List Block} {b : Block} (h : Reach s0 s (b :: st)) :
     ∃ s', disconnect s b = .ok s' :=
   reach_disconnect_ok h
+
+/-- **C14 (whole histories, `GetUnspent` and `GetTransaction` against the replayed ledger).** Let the persistent
+    indexes start in a state that answers both queries like a ledger `L0` (e.g. the genesis state). After ANY
+    history of connects (blocks valid on the state they meet, RegisterAsset transactions without outputs) and
+    disconnects of the tip block, `GetUnspent t` is — up to order — the list of unspent output indexes of `t` in
+    the ledger obtained by replaying the blocks of the current chain on `L0`, and `GetTransaction t` reports the
+    height the replay gives. (The per-address view is compared by execution only.) -/
+theorem C14_history_refines_ledger {s0 s : State} {L0 : Ledger} {st : List Block} (h : Reach s0 s st)
+    (hu : AbsU s0 L0) (ht : AbsT s0 L0)
+    (hreg0 : ∀ b ∈ st, ∀ tx ∈ b.txs, tx.kind = .registerAsset → tx.outs = []) :
+    (∀ t, (getUnspent s t).Perm (unspentOf (st.reverse.foldl applyBlock L0) t)) ∧
+    (∀ t, (s.txs.get t).map (·.1) = txHeight (st.reverse.foldl applyBlock L0) t) := by
+  obtain ⟨d, hd, he⟩ := reach_equiv_direct h
+  have h1 := direct_absU hd hu hreg0
+  have h2 := direct_absT hd ht
+  exact ⟨fun t => (he.unspent t).trans (h1.unspent t), fun t => by rw [he.txs t]; exact h2 t⟩
+
+/-- the empty index state and the empty ledger agree, so the theorem applies from the very beginning -/
+example : AbsU { tip := 0, height := 0 } {} ∧ AbsT { tip := 0, height := 0 } {} :=
+  ⟨⟨fun _ => List.Perm.refl _, fun _ => List.nodup_nil⟩, fun _ => rfl⟩
 
 /-- non-vacuity: connect, disconnect, connect again on the C13 example is a history -/
 example : ∃ s1 s2 s3, Reach C13.exState s3 [C13.exBlock] ∧ connect C13.exState C13.exBlock = .ok s1 ∧
